@@ -157,6 +157,10 @@ def build_history(rng, srv, spool, tier):
     for _ in range(rng.randint(1, 30)):
         lives.append(rng.choice([0.01, 0.3, 0.999, 1.0, 1.001, 5.0, 59.9, 60.0, 60.1, 200.0, 7000.0, -1]))
     sc.add("lives " + " ".join("%g" % x for x in lives))
+    if rng.random() < 0.5:
+        # exits arrive as a signal while the loop is about to poll and are collected after the timers of the same
+        # iteration (what a daemon that was held up sees); otherwise they are seen before the timers
+        sc.add("reapmode poll")
     t = now
     stalls = 0
     conn = 0
